@@ -33,6 +33,66 @@ CLAIMED["C15"] = dict(
     technique="Lean 4 proof over a heap (ref) model + differential op-program correspondence",
 )
 
+CLAIMED["C02"] = dict(
+    category="proof",
+    text="Over exact rationals, for every square matrix / every member of the reachable family: the spec pSpec = "
+         "W_ij*perm(minor)/perm(W) has column and row sums 1, is zero where W is zero, is invariant under row rescaling "
+         "and equivariant under row permutation; quick_prob equals the spec on sorted staircases (closed form, Hall), "
+         "block factorisation (blocks_eq_whole), Glynn's Gray-code loop equals the permanent for all n (glynn_eq_permC), "
+         "permanent_prob equals the spec, and the whole inf_retis pipeline incl. lock removal/argsorts/re-insertion equals "
+         "the embedded spec (infRetis_eq_spec_full). Tie: real inf_retis and sub-functions vs Lean model and spec, "
+         "exhaustive 0/1 staircases x lock subsets x row orders up to 6 plus ensembles, weighted up to 12, Monte-Carlo "
+         "branch decision only. Float cancellation is outside the model (one ill-conditioned witness is a known finding).",
+    design_ref="DESIGN.md §6 C02",
+    technique="Lean 4 proof (list permanent, Laplace/Glynn, staircase closed form) + exhaustive/seeded differential tie",
+)
+CLAIMED["C12"] = dict(
+    category="proof",
+    text="Theorems about add_to_path/feed for any stream (first frame, stop at first outside frame or limit, success iff "
+         "outside) and, for EVERY polling schedule/exit code, about the LAMMPS and CP2K polling-loop models and the "
+         "in-process ASE/TurtleMD loop (frames in order once, each frame with its own box/velocity, program stopped on "
+         "return, non-zero exit raises, backward retraces forward under reversibility). Tie = translation validation: the "
+         "REAL LAMMPS/CP2K engine classes run against fake MD executables driven tick by tick through FIFO handshakes over "
+         "exhaustively enumerated schedules; ASE/TurtleMD/plug-in run natively. GROMACS is modelled but not tied (no fake "
+         "gmx): partial.",
+    design_ref="DESIGN.md §6 C12",
+    technique="Lean 4 proof over loop models for all schedules + fake-MD-program translation validation",
+)
+CLAIMED["C13"] = dict(
+    category="proof",
+    text="xyz reader: for every well-formed trajectory and every cut list at byte granularity the reader returns exactly "
+         "the frames completely on disk, each once, in order, never raising (xyz_repaired_exact + exact_safety/complete); "
+         "LAMMPS reader: character-level sentinel lemmas (a torn atom line is always rejected, newline irrelevant) and "
+         "safety/completeness of the stage specification with its one-poll lag (the general link reader=stage spec is "
+         "_partial, covered by the tie on every run); TRR guards are tie-only. Tie: every single and pair of byte cuts on "
+         "generated trajectories against the real ReadAndProcessOnTheFly on a growing file; real get_gromacs_frames on TRR "
+         "bytes for both byte orders x precisions.",
+    design_ref="DESIGN.md §6 C13",
+    technique="Lean 4 proof over character-level reader models + exhaustive byte-cut correspondence",
+)
+CLAIMED["C16"] = dict(
+    category="proof",
+    text="Per engine, with the code's own constants as exact rationals: sigma_i^2*m_i = kB*T in engine units, and a proved "
+         "bound |<m v^2>/(k_B T) - 1| <= eps against SI-2019/CODATA values (eps 6e-8 GROMACS, 2e-10 LAMMPS, 1.2e-6 CP2K, "
+         "3.4e-7 ASE); velocities = sigma*z; exact zero momentum after reset; dek/kin_new consistent with the written "
+         "velocities for all five engines; positions/box/ids preserved; source frame untouched (heap model of "
+         "prepare_shooting_point); the only draw request is `normal` on the engine's stream. The Gaussian itself is a draw "
+         "request (numpy not modelled): partial by nature. Tie: all five real engines with a scripted/logging generator.",
+    design_ref="DESIGN.md §6 C16",
+    technique="Lean 4 proof of the algebra and unit constants over Rat + scripted-generator correspondence",
+)
+CLAIMED["C20"] = dict(
+    category="proof",
+    text="Over all rationals: |wrap| <= L/2, translation invariance of all relative parameters, image-shift invariance "
+         "(exact statement incl. half-even ties: distance always, signed parameters when no component sits at a half-box "
+         "tie, with the tie counterexample), velocity-reversal sign, 3- vs 9-component box agreement, rotation invariance "
+         "under R^T R = 1, det R = 1, purity of calculate. sqrt/arctan2/sin/cos are applied outside the model to the "
+         "rational pre-images: partial for the transcendental tails. Tie: dyadic geometries, Pythagorean rotations, "
+         "malformed boxes on the real classes.",
+    design_ref="DESIGN.md §6 C20",
+    technique="Lean 4 proof over Rat pre-images + differential tie on exact dyadic inputs",
+)
+
 NOT_YET = "check not built yet at this commit (work in progress; see DESIGN.md §8 work order)"
 
 
